@@ -17,7 +17,7 @@ by GNU ld (reference); thorough adds 4 AArch64 pairs (wild vs ld.lld).
     {the next function/object, +8, address 0}, and
     `linker-diff --wild-defaults --ref <GNU ld output> <corrupted copy>` must report a problem.
     A corruption that goes unreported is a violation keyed
-    missed:<output kind>:<section[>got|>gotplt]>:<relocation>:<referent class>:<redirection>."""
+    missed:<section[>got|>gotplt]>:<relocation>:<referent class>:<mechanism>:<redirection>."""
 import base64
 import collections
 import json
@@ -133,6 +133,12 @@ asm_probe:
         movq fa@GOTPCREL(%rip), %rcx
         addl hid(%rip), %eax
         call *fb@GOTPCREL(%rip)
+        pushq vb@GOTPCREL(%rip)         # not relaxable: a real GOT slot in every output kind
+        popq %rdx
+        addl (%rdx), %eax
+        pushq hid@GOTPCREL(%rip)
+        popq %rdx
+        addl (%rdx), %eax
         leaq asm_tab(%rip), %rdx
         addl (%rdx), %eax
         leaq asm_local(%rip), %rdx
@@ -479,7 +485,7 @@ def plan_subject(s, stats):
                 uncl[f"{s.keykind}:{insec}>got:{site.rname}:{site.symkind}: slot: "
                      f"{ref.slot_reason}"[:160]] += 1
             for redir, patches, note in ref.redirections(img):
-                cls = f"{s.keykind}:{where}:{site.rname}:{site.symkind}:{redir}"
+                cls = f"{where}:{site.rname}:{site.symkind}:{M.mech_of(ref.how)}:{redir}"
                 if patches is None:
                     st["redirections_not_applicable"] += 1
                     stats.setdefault("_not_applicable", collections.Counter())[
@@ -487,6 +493,7 @@ def plan_subject(s, stats):
                     continue
                 muts.append({
                     "subject": s.name, "class": cls, "how": ref.how, "redir": redir, "note": note,
+                    "kind": s.keykind,
                     "site": {"object": site.obj, "section": site.secname, "offset": site.offset,
                              "type": site.rname, "symbol": site.symname, "symkind": site.symkind,
                              "addend": site.addend, "output_address": site.addr, "ref_index": ri},
@@ -534,20 +541,80 @@ def _build_job(job):
     return build_subject(s, lib)
 
 
+def _show_patch_context(s, patched, m):
+    """Independent view (objdump / readelf / hexdump) of what the patch changed."""
+    e = E.Elf(s.wild)
+    objdump = ["objdump", "-d"] if s.arch == "x86_64" else ["llvm-objdump", "-d"]
+    for off, hx in m["patches"]:
+        sec = next((x for x in e.sections if x.sh_type != E.SHT_NOBITS and
+                    x.sh_offset <= off < x.sh_offset + x.sh_size), None)
+        if sec is None:
+            continue
+        addr = sec.sh_addr + off - sec.sh_offset
+        if sec.sh_flags & E.SHF_EXECINSTR:
+            sym = max((y for y in e.symbols(".symtab") if y.type == E.STT_FUNC and y.value <= addr),
+                      key=lambda y: y.value, default=None)
+            lo = max(sym.value if sym else addr - 16, addr - 24)
+            for label, f in (("original ", s.wild), ("corrupted", patched)):
+                r = subprocess.run([*objdump, f"--start-address={lo:#x}",
+                                    f"--stop-address={addr + 12:#x}", f], capture_output=True)
+                lines = [l for l in r.stdout.decode("utf-8", "replace").splitlines()
+                         if re.match(r"^\s*[0-9a-f]+:", l)]
+                print(f"  {label} code near {addr:#x}" + (f" (in {sym.name})" if sym else "") + ":")
+                for l in lines:
+                    print("     ", l)
+        elif sec.sh_type == E.SHT_RELA:
+            for label, f in (("original ", s.wild), ("corrupted", patched)):
+                r = subprocess.run(["readelf", "-rW", f], capture_output=True)
+                rec = (off - sec.sh_offset) // 24
+                raw = E.Elf(f).data[sec.sh_offset + rec * 24:sec.sh_offset + rec * 24 + 8]
+                want = "%016x" % struct.unpack("<Q", raw)[0]
+                for l in r.stdout.decode("utf-8", "replace").splitlines():
+                    if l.startswith(want):
+                        print(f"  {label} dynamic relocation: {l}")
+        else:
+            sym = max((y for y in e.symbols(".symtab") if y.type == E.STT_OBJECT and
+                       y.value <= addr < y.value + max(y.size, 1)), key=lambda y: y.value,
+                      default=None)
+            for label, f in (("original ", s.wild), ("corrupted", patched)):
+                d = E.Elf(f).data[off:off + len(hx) // 2]
+                v = int.from_bytes(d, "little")
+                tgt = ""
+                if len(d) == 8:
+                    ts = max((y for y in e.symbols(".symtab") if y.name and y.shndx and
+                              y.type in (E.STT_OBJECT, E.STT_FUNC) and y.value <= v),
+                             key=lambda y: y.value, default=None)
+                    if ts is not None and v - ts.value < 4096:
+                        tgt = f" = {ts.name}+{v - ts.value:#x}"
+                print(f"  {label} {sec.name} word at {addr:#x}"
+                      + (f" (in {sym.name}+{addr - sym.value:#x})" if sym else "")
+                      + f": {v:#x}{tgt}")
+
+
+def _run_native(path, libdir):
+    rc, so, se = vlib.run([path], env={"LD_LIBRARY_PATH": libdir}, timeout=10)
+    return f"exit status {rc}" if not isinstance(rc, int) or rc >= 0 else f"killed by signal {-rc}"
+
+
 def replay(chk, path):
     with open(path) as f:
-        rp = json.load(f)["replay"]
-    base = f"/dev/shm/verif.c34.replay.{os.getpid()}"
-    shutil.rmtree(base, ignore_errors=True)
-    os.makedirs(base)
+        doc = json.load(f)
+    rp = doc["replay"]
+    keep = os.environ.get("VERIF_KEEP")
+    base = keep or f"/dev/shm/verif.c34.replay.{os.getpid()}"
+    if not keep:
+        shutil.rmtree(base, ignore_errors=True)
+    os.makedirs(base, exist_ok=True)
+    reproduced = False
     try:
         lib = build_lib(base)
         arch, prog, kind = rp["subject"].split("-", 2)
         s = build_subject(Subject(arch, prog, kind, base), lib)
         if s.problem:
             chk.machinery(s.problem)
-        print("wild :", " ".join(rp.get("wild_cmd", s.wild_cmd)))
-        print("ref  :", " ".join(rp.get("ref_cmd", s.ref_cmd)))
+        print("files in", s.dir, "(set VERIF_KEEP=<dir> to keep them)")
+        print("wild     : WILD_WRITE_LAYOUT=1 WILD_WRITE_TRACE=1", " ".join(s.wild_cmd))
+        print("reference:", " ".join(s.ref_cmd))
         if rp["part"] == "quiet":
             test = s.wild
             if rp["mode"] == "copy":
@@ -557,8 +624,7 @@ def replay(chk, path):
             st, keys, text = linker_diff(s.wild, test, rp["defaults"])
             print(diff_cmdline(s.wild, test, rp["defaults"]))
             print(f"status={st} keys={keys}\n{text[-3000:]}")
-            if st != "quiet":
-                chk.violation(rp["key"], f"linker-diff not quiet: {st} {keys[:3]}", rp)
+            reproduced = st != "quiet"
         else:
             stats = {}
             muts = plan_subject(s, stats)
@@ -572,22 +638,31 @@ def replay(chk, path):
                 chk.machinery("recorded site not found in the rebuilt subject")
             m = cand[0]
             st0, k0, _ = linker_diff(s.ref, s.wild, True, extra=s.extra)
-            print("baseline:", diff_cmdline(s.ref, s.wild, True, s.extra), "->", st0, k0)
-            tag, st, keys, text = mutation_job(("r", s.wild, s.ref,
-                                                [(o, bytes.fromhex(h)) for o, h in m["patches"]],
-                                                base, s.extra))
-            print("site   :", json.dumps(m["site"]))
-            print("how    :", m["how"], "/", m["redir"], "/", m["note"])
-            print("patch  :", describe_patch(s, m))
-            print("command:", diff_cmdline(s.ref, "<copy of wild output with the patch>", True, s.extra))
-            print(f"status={st} keys={keys}\n{text}")
-            if st0 == "quiet" and st == "quiet":
-                chk.violation(rp["key"], f"corruption not reported: {m['site']} {m['note']}", rp)
-        chk.coverage = {"evaluations": 1, "distinct_nontrivial": 2, "rule": "replay",
-                        "samples": [rp.get("key")], "exhaustive": False}
-        chk.finish()
+            print("baseline :", diff_cmdline(s.ref, s.wild, True, s.extra), "->", st0, k0)
+            d = os.path.join(s.dir, "corrupted")
+            os.makedirs(d, exist_ok=True)
+            patched = os.path.join(d, "t")
+            with open(s.wild, "rb") as f:
+                data = f.read()
+            copy_with_sidefiles(s.wild, patched, M.apply_patches(
+                data, [(o, bytes.fromhex(h)) for o, h in m["patches"]]))
+            st, keys, text = linker_diff(s.ref, patched, True, extra=s.extra)
+            print("site     :", json.dumps(m["site"]))
+            print("mechanism:", m["how"], "/ redirection:", m["redir"], "/", m["note"])
+            print("patch    :", describe_patch(s, m))
+            _show_patch_context(s, patched, m)
+            if s.arch == "x86_64" and kind != "shared":
+                print("  running original :", _run_native(s.wild, base))
+                print("  running corrupted:", _run_native(patched, base))
+            print("corrupted:", diff_cmdline(s.ref, patched, True, s.extra), "->", st, keys[:6])
+            if st not in ("quiet", "problems"):
+                print(text)
+            reproduced = st0 == "quiet" and st == "quiet"
     finally:
-        shutil.rmtree(base, ignore_errors=True)
+        if not keep:
+            shutil.rmtree(base, ignore_errors=True)
+    print("REPRODUCED" if reproduced else "not reproduced")
+    sys.exit(1 if reproduced else 0)
 
 
 def main():
@@ -664,16 +739,24 @@ def main():
         muts = []
         for s in usable:
             muts.extend(plan_subject(s, stats))
-        order = list(range(len(muts)))
-        rnd.shuffle(order) if chk.seed else None
+        # Order: round-robin over classes (first one instance of every class, then the second,
+        # ...) so that a run stopped by the wall-clock cap has still touched every class.
+        # VERIF_SEED permutes the order within each round.
+        rank = collections.Counter()
+        keyed = []
+        for i, m in enumerate(muts):
+            keyed.append((rank[m["class"]], rnd.random() if chk.seed else 0, i))
+            rank[m["class"]] += 1
+        order = [i for _, _, i in sorted(keyed)]
         jobs = [(i, byname[muts[i]["subject"]].wild, byname[muts[i]["subject"]].ref,
                  [(o, bytes.fromhex(h)) for o, h in muts[i]["patches"]], base,
                  byname[muts[i]["subject"]].extra) for i in order]
         outcome = collections.Counter()
         per_class = collections.defaultdict(collections.Counter)
+        missed_kinds = collections.defaultdict(set)
         done = 0
         capped = False
-        chunk = 256
+        chunk = 128
         for c0 in range(0, len(jobs), chunk):
             if time.time() - t0 > budget:
                 capped = True
@@ -685,7 +768,9 @@ def main():
                 s = byname[m["subject"]]
                 outcome[st] += 1
                 per_class[m["class"]][st] += 1
-                classes.add((m["class"], m["how"], st))
+                if st == "quiet":
+                    missed_kinds[m["class"]].add(m["kind"])
+                classes.add((m["class"], m["kind"], st))
                 if st == "problems" and len(samples) < 12 and done % 97 == 1:
                     samples.append({"part": "catches", "class": m["class"], "site": m["site"],
                                     "how": m["how"], "note": m["note"], "status": st,
@@ -732,6 +817,7 @@ def main():
             "mutation_classes": len(per_class),
             "missed_classes": missed_classes,
             "per_class_outcomes": {c: dict(v) for c, v in sorted(per_class.items())},
+            "missed_class_output_kinds": {c: sorted(v) for c, v in sorted(missed_kinds.items())},
             "per_subject": {k: dict(v) for k, v in stats.items()},
             "sites_unclassified_by_reason": dict(unclassified),
             "redirections_not_applicable_by_reason": dict(not_applicable),
